@@ -577,6 +577,39 @@ impl Oracle for Space {
                 }
             }
         }
+        // a create / mkdir may only be refused for lack of space when the directory really has no free slot and cannot
+        // grow (FAT16 root, or no free cluster), or - mkdir - when there is no cluster for the new directory
+        if let (Op::Open { d, .. } | Op::Mkdir { d, .. }, Res::Err(e)) = (&st.op, &st.res) {
+            if matches!(e, E::DiskFull | E::NotEnoughSpace) {
+                let pre_m = sc_model_pre(sc, hist);
+                if let Some(md) = pre_m.dirs[*d as usize].as_ref() {
+                    let vpre = view(vcx, pre);
+                    let fat = vcx.fat(pre, 0);
+                    let loc = if md.path.is_empty() {
+                        Some(refat::root_loc(v))
+                    } else {
+                        vpre.tree.find(&path_of(&md.path, None)).map(|n| refat::DirLoc::Chain(n.ent.cluster))
+                    };
+                    if let Some(loc) = loc {
+                        let (slots, _, _) = refat::dir_slots(pre, v, &fat, loc);
+                        let has_free_slot = slots.iter().any(|s| s.raw[0] == 0x00 || s.raw[0] == 0xE5);
+                        let growable = !matches!(loc, refat::DirLoc::Root16);
+                        let free = vpre.free(vcx) as u64;
+                        let is_mkdir = matches!(st.op, Op::Mkdir { .. });
+                        let room = if is_mkdir { (has_free_slot && free >= 1) || (growable && free >= 2) } else { has_free_slot || (growable && free >= 1) };
+                        if room {
+                            out.push(viol(
+                                "C05",
+                                format!("capacity/refused-although-there-is-room@{}", st.op.kind()),
+                                format!("{} -> Err({:?}) although the directory {} and {} clusters are free", st.op.show(), e, if has_free_slot { "has a free slot" } else { "can grow" }, free),
+                                sc,
+                                hist,
+                            ));
+                        }
+                    }
+                }
+            }
+        }
         // leaks: when no file is open, clusters in use = union of live chains (differential against the flushed pre-state)
         if w.m.any_file_open() || w.dead {
             return;
